@@ -280,6 +280,7 @@ Inductive mclass (w : world) (s s' : st) : effect -> Prop :=
 | MC_rel k x y : (y = None \/ y = Some str_null) -> get_str w k = Some x ->
     smem s' = mem_drop (smem s) (sbuf x) -> snext s' = snext s -> mclass w s s' (FSetStr k y)
 | MC_plus r : mk2m (smem s) (snext s) r s' -> mclass w s s' (FNewStr r)
+| MC_tmp : smem s' = smem s -> snext s' = S (snext s) -> mclass w s s' FNone
 | MC_swap a b sa sb : get_str w a = Some sa -> get_str w b = Some sb -> same_mem s s' -> mclass w s s' (FSet2 a sb b sa).
 
 Definition classed (w : world) (c : M (out * effect)) : Prop :=
@@ -400,6 +401,19 @@ Proof.
     unfold classed. apply pM_ret. cbn [snd]. eapply MC_swap; [exact Ea|exact Eb|split; reflexivity].
   - (* OSDel *) destruct (get_str w k) as [x|] eqn:Ek; [|apply classed_bad].
     eapply classed_rel; [exact Ek|left; reflexivity].
+  - (* OSMoveCtor *) destruct (get_str w k) as [x|] eqn:Ek; [|apply classed_bad].
+    unfold classed, s_copy. eapply pM_bind; [apply m_from_ptr_len|]. cbv beta. intros r s1 H.
+    unfold retO, pM. cbn [snd]. apply MC_new. exact H.
+  - (* OSMoveAssign *) destruct (get_str w d) as [sd|] eqn:Ed; [|apply classed_bad].
+    destruct (get_str w s) as [ss|]; [|apply classed_bad].
+    unfold classed. eapply pM_bind; [apply m_assign; eapply Hb; exact Ed|]. cbv beta. intros r s1 H.
+    unfold retO, pM. cbn [snd]. eapply MC_rep; eassumption.
+  - (* OSByVal *) destruct (get_str w k) as [x|] eqn:Ek; [|apply classed_bad].
+    unfold classed, s_copy. eapply pM_bind; [apply m_from_ptr_len|]. cbv beta. intros r s1 (L & n & -> & A & B & C & D).
+    eapply pM_bind; [apply m_destroy|]. cbv beta. intros u s2 [E1 E2]. apply pM_ret. cbn [snd].
+    apply MC_tmp; [|congruence]. rewrite E1, C. cbn [sbuf mem_drop mem_del]. rewrite Nat.eqb_refl.
+    apply mem_del_absent. apply fresh_none. exact Hfr.
+  - (* OTraits *) unfold classed. apply pM_ret. cbn [snd]. apply MC_ro; [left; reflexivity|split; reflexivity].
 Qed.
 
 (* ---- preservation *)
@@ -421,6 +435,9 @@ Proof.
   - cbn [apply_effect wstrs]. eapply sinv_replace; try eassumption; [apply L|apply get_str_nth; assumption].
   - cbn [apply_effect wstrs]. eapply sinv_release; try eassumption; [apply L|apply get_str_nth; assumption].
   - cbn [apply_effect wstrs]. eapply sinv_plus; eassumption.
+  - cbn [apply_effect wstrs]. destruct S as [Hf Hok]. split.
+    + intros b l. rewrite H, H0. intros G. apply Hf in G. lia.
+    + intros k x G. rewrite H. eapply Hok; exact G.
   - cbn [apply_effect wstrs]. pose proof (sinv_same _ _ _ S H1) as [Hf Hok]. split; [exact Hf|].
     pose proof (get_str_nth _ _ _ H) as Ha. pose proof (get_str_nth _ _ _ H0) as Hb.
     assert (Hla : (a < length (wstrs w))%nat) by (apply nth_error_Some; congruence).
@@ -473,4 +490,14 @@ Proof.
   - intros k x Hk. exact (Hok k x (get_str_nth _ _ _ Hk)).
   - intros k1 k2 x1 x2 b H1 H2 E1 E2. destruct Hw as [A B C D].
     eapply distinct_slots; [exact C|apply get_str_nth; exact H1|apply get_str_nth; exact H2|exact E1|exact E2].
+Qed.
+
+(* std::move of a basic_string is a copy (there is no move constructor): the new string denotes the source's text in a
+   fresh buffer on top of the UNCHANGED memory, so the source keeps its value, its buffer and its terminator *)
+Lemma move_ctor_is_copy w k x : fresh (wst w) -> str_ok (smem (wst w)) x -> get_str w k = Some x ->
+  exists r s', do_op w (OSMoveCtor k) (wst w) = (Ok (src_out k x s', FNewStr r), s') /\
+               constructed (wst w) (txt (smem (wst w)) x) (within (str_view x)) r s'.
+Proof.
+  intros Hf Hx Hk. cbn [do_op]. rewrite Hk. destruct (s_copy_ok (wst w) x Hf Hx) as (r & s' & E & C).
+  exists r, s'. split; [|exact C]. unfold bindM. rewrite E. reflexivity.
 Qed.
